@@ -127,7 +127,8 @@ InitState(T) ==
    oracle  |-> BoxSize(P.doms) <= SolCap,
    sols    |-> IF BoxSize(P.doms) <= SolCap THEN Solutions(P) ELSE {},
    yielded |-> {},
-   cnt     |-> [i \in 1..13 |-> 0],
+   \* the depth is a maximum: on a solver object used before it starts from what the earlier call reached (depth0)
+   cnt     |-> [i \in 1..13 |-> IF i = 12 /\ "depth0" \in DOMAIN T THEN T.depth0 ELSE 0],
    lvls    |-> 0,
    shAlg   |-> 0,
    shEv    |-> 0,          \* events consumed since the running shaving call started
@@ -393,6 +394,11 @@ Step0(T, s, e) ==
     [] e.k = "O" -> OptReturn(T, s, e)
     [] e.k = "X" -> Raised(T, s, e)
     [] e.k = "H" -> << s, {"C04:hung"} >>
+    \* a further call on a solver object that was used before: its counters either go on from the totals of the earlier
+    \* call (cumulative statistics) or all start again from zero (statistics per call); a mixture reports numbers that
+    \* are neither "what happened since the solver was made" nor "what happened in this call"
+    [] e.k = "K" -> << s, Failed(<< <<"C17:counters-neither-cumulative-nor-per-call",
+                                     e.base = e.prior \/ \A i \in 1..Len(e.base) : e.base[i] = 0>> >>) >>
     [] OTHER -> << s, {"XX:unknown-event"} >>
 
 \* every event inside a shaving call counts against the bound of that call (reported once, when the bound is crossed)
